@@ -18,6 +18,15 @@ class Check:
         self.traces = 0
         self.assumptions = []
         self.features = {}
+        # development aid: VERIF_ONLY=<regex> runs only the stages whose name matches (no evidence is written then)
+        self.only = os.environ.get("VERIF_ONLY")
+
+    def skip(self, name):
+        import re
+        if self.only and not re.search(self.only, name):
+            log("[%s] skipped (VERIF_ONLY)" % name)
+            return True
+        return False
 
     quick = property(lambda self: self.tier == "quick")
 
@@ -31,6 +40,8 @@ class Check:
 
     def mc(self, name, base, consts, invariants=(), properties=(), constraint="Constr", spec=("INIT Init", "NEXT Next"),
            workers=8, timeout=900, view=None):
+        if self.skip(name):
+            return {"distinct": 0, "generated": 0, "depth": 0, "timed_out": False, "ok": True, "wall_s": 0}
         """Model-check the specification itself.  A failure here is a defect of the model, not of
         the code: reported as a tool error."""
         cfg = list(spec)
@@ -55,7 +66,41 @@ class Check:
             name, tl["distinct"], tl["generated"], tl["depth"], len(invariants), len(properties), tl["wall_s"]))
         return tl
 
+    def apalache(self, name, module, cinit, inv, init=None, length=0, timeout=1800, expect="NoError", what=""):
+        """A bounded / inductive check by Apalache (symbolic: integers unbounded).  Like `mc`, a failure is a defect of the
+        specification (tool error), not of the code."""
+        if self.skip(name):
+            return None
+        args = ["--cinit=" + cinit, "--inv=" + inv, "--length=%d" % length] + (["--init=" + init] if init else [])
+        oc, wall, tail = core.apalache_check("%s_%s" % (self.prop, name), module, args, timeout=timeout)
+        st = {"stage": name, "kind": "apalache-" + ("inductive-step" if init else "bounded"), "module": module, "invariant": inv,
+              "init": init or "Init", "length": length, "constants": cinit, "outcome": oc, "wall_s": round(wall, 1), "what": what}
+        self.stages.append(st)
+        if oc == "timeout":
+            log("[%s] apalache stopped at its wall-clock cap (%ss); nothing concluded" % (name, timeout))
+            return oc
+        if oc != expect:
+            raise ToolError("%s: apalache outcome %s (expected %s):\n%s" % (name, oc, expect, tail))
+        log("[%s] apalache: %s for %s from %s, length %d: %s (%.1fs)" % (name, inv, module, init or "Init", length, oc, wall))
+        return oc
+
+    def apalache_bg(self, *a, **kw):
+        """Start an Apalache stage in the background (it uses one or two cores); `finish` waits for it."""
+        import threading
+        box = {}
+
+        def run():
+            try:
+                self.apalache(*a, **kw)
+            except BaseException as e:      # re-raised by finish()
+                box["err"] = e
+        t = threading.Thread(target=run, daemon=True)
+        t.start()
+        self.__dict__.setdefault("bg", []).append((t, box))
+
     def mc_sim(self, name, base, consts, invariants=(), properties=(), constraint="Constr", num=200, depth=40, workers=8, timeout=600):
+        if self.skip(name):
+            return None
         """Deep random walks of the model (tlc -simulate) with every invariant / action property evaluated on every state:
         depths the exhaustive configurations cannot reach."""
         import re
@@ -79,6 +124,8 @@ class Check:
 
     def gen(self, name, base, consts, replayer, rargs, cfg=("INIT GInit", "NEXT GNext", "INVARIANT Emit", "CONSTRAINT Constr"),
             workers=12, timeout=900, need=()):
+        if self.skip(name):
+            return {"distinct": 0, "generated": 0, "depth": 0, "timed_out": False, "ok": True, "wall_s": 0}, {}
         tl, summ = core.gen_replay("%s_%s" % (self.prop, name), base, consts, list(cfg), replayer, rargs,
                                    workers=workers, timeout=timeout)
         self.states += tl["distinct"]
@@ -109,6 +156,8 @@ class Check:
         return tl, summ
 
     def aux(self, name, cmd, kind, env=None, payload_extra=None, timeout=900):
+        if self.skip(name):
+            return {}
         """A follow-up command of a stage (cross checks): prints one JSON summary line
         {lines, n_mismatch, mismatches}; mismatches are violations."""
         t0 = time.time()
@@ -128,6 +177,8 @@ class Check:
         return summ
 
     def traces_stage(self, name, recorder, profile, files, runs, ops, trace_spec="BookTrace", par=8, extra_args=(), timeout=600, consts=None, view=None, spec="TSpec", report="Report"):
+        if self.skip(name):
+            return {}
         """record-validate: `files` trace files, each `runs` runs of <= `ops` calls."""
         core.build_harness()
         if isinstance(recorder, list):
@@ -192,6 +243,10 @@ class Check:
 
     # ------------------------------------------------------------------ verdict
     def finish(self, level, level_explanation, rule, nontrivial_keys=()):
+        for t, box in self.__dict__.get("bg", []):
+            t.join()
+            if "err" in box:
+                raise box["err"]
         known = [k for k in core.load_known() if k.get("property") == self.prop and k.get("status") == "known"]
         from . import findings
         new, matched = [], {}
@@ -223,7 +278,10 @@ class Check:
                "explanation": level_explanation,
                "known_findings_matched": {k: len(v) for k, v in matched.items()},
                "exhaustive": False}
-        core.write_evidence(self.prop, self.tier, self.seed, level, cov, wall, len(new), self.assumptions)
+        if self.only:
+            log("[%s] VERIF_ONLY run: evidence not written" % self.prop)
+        else:
+            core.write_evidence(self.prop, self.tier, self.seed, level, cov, wall, len(new), self.assumptions)
         log("[%s] %s tier done in %.1fs: %d states, %d histories/traces against the implementation, %d new violation(s), %d known" % (
             self.prop, self.tier, wall, self.states, self.traces, len(new), sum(len(v) for v in matched.values())))
         return 1 if new else 0
